@@ -25,6 +25,6 @@ Unused == store = {} /\ q = <<>> /\ scanned = {} /\ chunks = 0 /\ pc = "trace" /
 TraceInit == l = 1 /\ sc = Conv(Rec[1]) /\ Unused
 TraceNext == l < Len(Rec) /\ l' = l + 1 /\ sc' = Conv(Rec[l + 1]) /\ UNCHANGED <<store, q, scanned, chunks, pc, readded>>
 TraceSpec == TraceInit /\ [][TraceNext]_<<vars, l>>
-LineOK == Matches(Rec[l]) \/ (PrintT(<<"REJECTED at line", l, Rec[l]>>) /\ FALSE)
+LineOK == Matches(Rec[l]) \/ (PrintT("REJECTED at line " \o ToString(<<l, Rec[l]>>)) /\ FALSE)
 Accepted == TLCGet("stats").diameter = Len(Rec)
 =============================================================================
